@@ -129,14 +129,25 @@ func c08Payload(c c08Conn) []byte {
 
 var c08Remote = 0
 
-func stubFor(remote string) (recs []stubRecord) {
-	for _, r := range stubs.snapshot() {
+func stubFor(remote string) (recs []stubRecord) { return stubForSince(remote, 0) }
+
+// stubForSince: records of services that saw a connection from `remote`, among those added after
+// the first `mark` records (the kernel hands the same ephemeral port to a later socket: without
+// the mark a later datagram would be mixed up with an earlier one from the same port)
+func stubForSince(remote string, mark int) (recs []stubRecord) {
+	all := stubs.snapshot()
+	if mark > len(all) {
+		mark = len(all)
+	}
+	for _, r := range all[mark:] {
 		if r.Remote == remote {
 			recs = append(recs, r)
 		}
 	}
 	return
 }
+
+func stubMark() int { return len(stubs.snapshot()) }
 
 func c08RunConn(m *memListener, c c08Conn) c08Obs {
 	payload := c08Payload(c)
@@ -290,9 +301,9 @@ func waitBound(proto string, port int) bool {
 	return false
 }
 
-func obsFor(remote string, sent []byte) c08Obs {
+func obsFor(remote string, sent []byte, mark int) c08Obs {
 	obs := c08Obs{Sent: hex.EncodeToString(sent), Chosen: "none"}
-	recs := stubFor(remote)
+	recs := stubForSince(remote, mark)
 	obs.Ran = len(recs)
 	if len(recs) > 0 {
 		obs.Chosen = recs[0].Name
@@ -304,10 +315,10 @@ func obsFor(remote string, sent []byte) c08Obs {
 	return obs
 }
 
-func waitStub(remote string, d time.Duration) {
+func waitStub(remote string, d time.Duration, mark int) {
 	deadline := time.Now().Add(d)
 	for time.Now().Before(deadline) {
-		recs := stubFor(remote)
+		recs := stubForSince(remote, mark)
 		if len(recs) > 0 && recs[0].Done {
 			return
 		}
@@ -317,6 +328,7 @@ func waitStub(remote string, d time.Duration) {
 
 func c08SocketConn(c c08Conn, port int, quiet time.Duration) c08Obs {
 	payload := c08Payload(c)
+	mark := stubMark()
 	if c.Proto == "udp" {
 		u, err := net.DialUDP("udp", nil, &net.UDPAddr{IP: net.IPv4(127, 0, 0, 1), Port: port})
 		if err != nil {
@@ -325,8 +337,8 @@ func c08SocketConn(c c08Conn, port int, quiet time.Duration) c08Obs {
 		defer u.Close()
 		u.Write(payload)
 		remote := u.LocalAddr().String()
-		waitStub(remote, quiet)
-		return obsFor(remote, payload)
+		waitStub(remote, quiet, mark)
+		return obsFor(remote, payload, mark)
 	}
 	cl, err := net.DialTCP("tcp", nil, &net.TCPAddr{IP: net.IPv4(127, 0, 0, 1), Port: port})
 	if err != nil {
@@ -345,7 +357,7 @@ func c08SocketConn(c c08Conn, port int, quiet time.Duration) c08Obs {
 	}
 	cl.Write(payload[:first])
 	deadline := time.Now().Add(5 * time.Second)
-	for time.Now().Before(deadline) && len(stubFor(remote)) == 0 {
+	for time.Now().Before(deadline) && len(stubForSince(remote, mark)) == 0 {
 		select {
 		case <-closed:
 			deadline = time.Now()
@@ -360,11 +372,11 @@ func c08SocketConn(c c08Conn, port int, quiet time.Duration) c08Obs {
 	case <-closed:
 	case <-time.After(quiet):
 	}
-	waitStub(remote, 20*time.Millisecond)
-	if len(stubFor(remote)) > 0 {
-		waitStub(remote, 5*time.Second)
+	waitStub(remote, 20*time.Millisecond, mark)
+	if len(stubForSince(remote, mark)) > 0 {
+		waitStub(remote, 5*time.Second, mark)
 	}
-	return obsFor(remote, payload)
+	return obsFor(remote, payload, mark)
 }
 
 func c08RunSocket(sc c08Scenario) c08Result {
@@ -424,6 +436,7 @@ func c08RunSocketOnce(sc c08Scenario) c08Result {
 				end = len(sd.Order)
 			}
 			// one socket per datagram; the whole group is sent before any of it is awaited
+			mark := stubMark()
 			socks := make([]*net.UDPConn, end-at)
 			for k := range socks {
 				c := sc.Conns[sd.Order[at+k]].Conn
@@ -438,10 +451,10 @@ func c08RunSocketOnce(sc c08Scenario) c08Result {
 				u.Write(c08Payload(sc.Conns[sd.Order[at+k]].Conn))
 			}
 			for _, u := range socks {
-				waitStub(u.LocalAddr().String(), quiet)
+				waitStub(u.LocalAddr().String(), quiet, mark)
 			}
 			for k, u := range socks {
-				obs[at+k] = obsFor(u.LocalAddr().String(), c08Payload(sc.Conns[sd.Order[at+k]].Conn))
+				obs[at+k] = obsFor(u.LocalAddr().String(), c08Payload(sc.Conns[sd.Order[at+k]].Conn), mark)
 				u.Close()
 			}
 		}
